@@ -4,7 +4,7 @@ import traceback
 
 from hypothesis import strategies as st
 
-from .. import genir, irsem, irwf
+from .. import genir, irsem, irsem_selfcheck, irwf
 from ..core import Discard, HarnessError, Stats, hyp_search, subseed
 from ..irpasses import PASS_NAMES, make_pass
 
@@ -215,5 +215,6 @@ def _worker(arg):
 
 
 def run(ctx):
+    ctx.extra["irsem_selfcheck"] = irsem_selfcheck.selfcheck("quick")  # the oracle validates itself first (cached)
     n = ctx.scale(1200, 80000)
     ctx.pmap(_worker, [(subseed(ctx.seed, PID, w), n // 16) for w in range(16)])
